@@ -33,7 +33,7 @@ func init() {
 }
 
 func genC11(w *bufio.Writer, tier string, rng *rand.Rand) {
-	qgrid := []float64{1e-9, 1 - 1e-9}
+	qgrid := []float64{1e-9, 1 - 1e-9, 1e-12, 1e-18, 1e-30, 1e-300, 5e-324, 1 - 1e-12, 1 - 1e-16}
 	for j := 0; j <= 40; j++ {
 		qgrid = append(qgrid, float64(j)/40)
 	}
